@@ -41,8 +41,8 @@ def missing_wedge_mask(
     normal0, normal1 = _get_unrotated_normals(tilt_range)
     shape_vector = np.array(shape, dtype=np.float32)
     rotator_inv = rotator.inv()
-    normal0 = rotator_inv.apply(normal0 * shape_vector)
-    normal1 = rotator_inv.apply(normal1 * shape_vector)
+    normal0 = rotator_inv.apply(normal0) / shape_vector
+    normal1 = rotator_inv.apply(normal1) / shape_vector
     vectors = _get_indices(shape, backend)
     dot0 = vectors.dot(backend.asarray(normal0))
     dot1 = vectors.dot(backend.asarray(normal1))
